@@ -391,15 +391,14 @@ theorem sat64_range (x : EInt) : -(2^63 : Int) ≤ sat64 x ∧ sat64 x < 2^63 :=
   cases x <;> simp only [sat64, minInt64, maxInt64] <;> (try split) <;> (try split) <;> omega
 
 /-- the arithmetic core of substr: positions `s0` (already relative-clamped) and length `l`. -/
-theorem substr_core (L : Int) (x0 x1 : EInt) (hL0 : 0 ≤ L) (hL : L < 2^62) (undef1 : Bool)
-    (hov : Spec.relIndex L x0 + (if undef1 then L else sat64 x1) < 2^63) :
+theorem substr_core (L : Int) (x0 x1 : EInt) (hL0 : 0 ≤ L) (hL : L < 2^62) (undef1 : Bool) :
     let start := Spec.relIndex L x0
     let length := if undef1 then L else sat64 x1
     let r5 : Int := Spec.substrStart L x0
     let r6 := Spec.clamp (if undef1 then .pinf else x1) 0 (L - r5)
     (start ≥ L ∨ length ≤ 0 → r6 ≤ 0) ∧
     (¬ (start ≥ L ∨ length ≤ 0) →
-        let length' := if wrap64 (start + length) ≥ L then L - start else length
+        let length' := if length ≥ L - start then L - start else length
         r6 > 0 ∧ r5 = start ∧ wrap64 (start + length') = start + r6 ∧ ¬ (wrap64 (start + length') < start)) := by
   intro start length r5 r6
   have hs := relIndex_range L x0 hL0
@@ -417,16 +416,15 @@ theorem substr_core (L : Int) (x0 x1 : EInt) (hL0 : 0 ≤ L) (hL : L < 2^62) (un
   cases undef1 with
   | true =>
     simp only [if_true, Spec.clamp] at hr6
-    simp only [length, if_true] at hov ⊢
+    simp only [length, if_true]
     refine ⟨by intro h; omega, ?_⟩
     intro h
-    rw [hw (start + L) (by omega) (by omega)]
     rw [if_pos (by omega)]
     rw [hw (start + (L - start)) (by omega) (by omega)]
     omega
   | false =>
     simp only [Bool.false_eq_true, if_false] at hr6
-    simp only [length, Bool.false_eq_true, if_false] at hov ⊢
+    simp only [length, Bool.false_eq_true, if_false]
     have hclamp : (sat64 x1 ≤ 0 → r6 ≤ 0) ∧ (sat64 x1 > 0 → L - r5 > 0 → r6 = min (sat64 x1) (L - r5)) := by
       rw [hr6]
       cases x1 <;> simp only [Spec.clamp, sat64, minInt64, maxInt64] <;> (try split) <;> (try split) <;> omega
@@ -436,8 +434,7 @@ theorem substr_core (L : Int) (x0 x1 : EInt) (hL0 : 0 ≤ L) (hL : L < 2^62) (un
     have h2 : sat64 x1 > 0 := by omega
     have h5 : r5 = start := by omega
     have h6 := hclamp.2 h2 (by omega)
-    rw [hw (start + sat64 x1) (by omega) (by omega)]
-    by_cases hge : start + sat64 x1 ≥ L
+    by_cases hge : sat64 x1 ≥ L - start
     · rw [if_pos hge, hw (start + (L - start)) (by omega) (by omega)]; omega
     · rw [if_neg hge, hw (start + sat64 x1) (by omega) (by omega)]; omega
 
@@ -449,24 +446,22 @@ theorem optPos_eq (E : Env) (v : Val) (d : EInt) :
     Spec.optPos E v d = if v == .undef then d else Spec.toInteger E v := by
   cases v <;> rfl
 
-/-- C09.substr_bmp: Annex B.2.3, outside the int64 overflow region `substr_overflow_panic` -/
+/-- C09.substr_bmp: Annex B.2.3 for every receiver, every argument list (lengths up to ±∞ included) and every
+    string without astral code points (code after fix d18503f: no overflow side condition is needed any more) -/
 theorem substr_bmp (E : Env) (r : Recv) (args : List Val) (hl : NoLone r)
     (hb : NoAstral (thisString E r)) (hlen : ((decodeRunes (thisString E r)).length : Int) < 2^62)
-    (h0 : SmallInt (argAt args 0)) (h1 : SmallInt (argAt args 1))
-    (hov : (rangeStartLength E args (decodeRunes (thisString E r)).length).1 +
-           (rangeStartLength E args (decodeRunes (thisString E r)).length).2 < 2^63) :
+    (h0 : SmallInt (argAt args 0)) (h1 : SmallInt (argAt args 1)) :
     substr E r args = Spec.substr E r args := by
   unfold Spec.substr substr
   rw [thisStringNoCheck_link E r hl, U_bmp _ hb]
   dsimp only
-  rw [rangeStartLength_eq] at hov ⊢
-  dsimp only at hov ⊢
+  rw [rangeStartLength_eq]
+  dsimp only
   generalize hT : decodeRunes (thisString E r) = T at *
   have hL0 : (0 : Int) ≤ (T.length : Int) := by omega
-  rw [optLen_eq E _ _ h1, number_sat E _ h0, clamp_slice _ _ hL0 hlen] at hov
   rw [optLen_eq E _ _ h1, number_sat E _ h0, clamp_slice _ _ hL0 hlen, optPos_eq]
   have core := substr_core T.length (Spec.toInteger E (argAt args 0)) (Spec.toInteger E (argAt args 1)) hL0 hlen
-    (argAt args 1 == .undef) hov
+    (argAt args 1 == .undef)
   simp only [] at core ⊢
   have hs := relIndex_range T.length (Spec.toInteger E (argAt args 0)) hL0
   generalize Spec.relIndex (↑T.length) (Spec.toInteger E (argAt args 0)) = a at *
@@ -491,7 +486,8 @@ theorem substr_bmp (E : Env) (r : Recv) (args : List Val) (hl : NoLone r)
 theorem length_strObj (E : Env) (s : List Nat) : length E (.strObj s) = Spec.length E (.strObj s) := by
   simp [length, Spec.length, strLength_eq]
 
-/-- C09.fromCharCode_eq: String.fromCharCode is unit-exact wherever ToUint16 is (C05 region toInt_big) -/
+/-- C09.fromCharCode_eq: String.fromCharCode is unit-exact wherever ToUint16 is; after fix 919cc4b the
+    hypothesis is discharged for every well-formed value by `C05.Thm.toUint16_eq` -/
 theorem fromCharCode_eq (E : Env) (args : List Val)
     (h : ∀ v ∈ args, toUint16 E.c5 v = C05.Spec.toUint16 E.c5 v) :
     fromCharCode E args = Spec.fromCharCode E args := by
@@ -675,8 +671,8 @@ example : trim E0 (callThis (.val .undef)) [] ≠ Spec.trim E0 (.val .undef) [] 
 example : concat E0 (.val16 [0xD800]) [] ≠ Spec.concat E0 (.val16 [0xD800]) [] := by decide
 -- index_noncanonical: "abc"["01"]
 example : index E0 (.strObj sABC) (.str [0x30, 0x31]) ≠ Spec.index E0 (.strObj sABC) (.str [0x30, 0x31]) := by decide
--- substr_overflow_panic: "abc".substr(1, Infinity)
-example : substr E0 (.strObj sABC) [num 1, .f64 (.inf false)] = .panic ∧
+-- (region substr_overflow_panic was repaired by fix d18503f: "abc".substr(1, Infinity) is now "bc")
+example : substr E0 (.strObj sABC) [num 1, .f64 (.inf false)] = .str [0x62, 0x63] ∧
     Spec.substr E0 (.strObj sABC) [num 1, .f64 (.inf false)] = .str [0x62, 0x63] := by decide
 -- indexOf_byte_offset: "aéb".indexOf("b", 2)
 example : indexOf E0 (.strObj sAEB) [.str [0x62], num 2] = .int 3 ∧ Spec.indexOf E0 (.strObj sAEB) [.str [0x62], num 2] = .int 2 := by decide
@@ -685,15 +681,14 @@ example : lastIndexOf E0 (.strObj sAEB) [.str [0x62], num 2] = .int (-1) ∧ Spe
 -- lastIndexOf_nan / lastIndexOf_neginf: "abc".lastIndexOf("c", NaN) / (…, -Infinity)
 example : lastIndexOf E0 (.strObj sABC) [.str [0x63], .f64 .nan] = .int (-1) ∧ Spec.lastIndexOf E0 (.strObj sABC) [.str [0x63], .f64 .nan] = .int 2 := by decide
 example : lastIndexOf E0 (.strObj sABC) [.str [0x63], .f64 (.inf true)] = .int 2 ∧ Spec.lastIndexOf E0 (.strObj sABC) [.str [0x63], .f64 (.inf true)] = .int (-1) := by decide
--- lastIndexOf_overflow_panic: "abc".lastIndexOf("c", 2^63)
-example : lastIndexOf E0 (.strObj sABC) [.str [0x63], .f64 (.fin false 1 63)] = .panic ∧
+-- (region lastIndexOf_overflow_panic was repaired by fix 6684245: "abc".lastIndexOf("c", 2^63) is now 2)
+example : lastIndexOf E0 (.strObj sABC) [.str [0x63], .f64 (.fin false 1 63)] = .int 2 ∧
     Spec.lastIndexOf E0 (.strObj sABC) [.str [0x63], .f64 (.fin false 1 63)] = .int 2 := by decide
 -- split_empty_sep_astral: "a𝒳b".split("")
 example : split E0 (.strObj sAXB) [.str []] ≠ Spec.split E0 (.strObj sAXB) [.str []] := by decide
--- toUint_big: String.fromCharCode(2^63 + 2048)
-example : fromCharCode E0 [.f64 (.fin false (2^52 + 1) 11)] = .str [0] ∧
+-- (region toUint_big was repaired by fix 919cc4b: String.fromCharCode(2^63 + 2048) is now unit 2048)
+example : fromCharCode E0 [.f64 (.fin false (2^52 + 1) 11)] = .str [2048] ∧
     Spec.fromCharCode E0 [.f64 (.fin false (2^52 + 1) 11)] = .str [2048] := by decide
-
 -- case_special: "ß".toUpperCase(), "İ".toLowerCase();  case_astral: "𐐀".toLowerCase()
 example : toUpperCase E0 (.strObj [0xC3, 0x9F]) [] = .str [0xDF] ∧ Spec.toUpperCase E0 (.strObj [0xC3, 0x9F]) [] = .str [0x53, 0x53] := by decide
 example : toLowerCase E0 (.strObj [0xC4, 0xB0]) [] = .str [0x69] ∧ Spec.toLowerCase E0 (.strObj [0xC4, 0xB0]) [] = .str [0x69, 0x307] := by decide
